@@ -88,6 +88,8 @@ class ExprMixin:
         results into one value; obligations are not emitted (the expression is re-evaluated per use)"""
         self.spec_depth += 1          # no obligations, no allocation
         saved_raises = self.pending_raises
+        saved_env = self.spec_env
+        self.spec_env = []            # code names, not spec names (`result`, `value`, bound variables)
         self.pending_raises = []
         self.join_mode += 1
         try:
@@ -97,6 +99,7 @@ class ExprMixin:
             self.spec_depth -= 1
             self.join_mode -= 1
             self.pending_raises = saved_raises
+            self.spec_env = saved_env
         raised = [(s_, e) for s_, e in raised if feasible(s_.pc)]
         if raised:
             raise Unsupported(f"element expression may raise {raised[0][1]}", node)
@@ -138,7 +141,22 @@ class ExprMixin:
         raise Unsupported(f"constant {c!r}", node)
 
     def ev_JoinedStr(self, node, st):
-        return [(st, VStr(t=fresh(STR, "fstr").t))]
+        parts = []
+        for v in node.values:
+            if isinstance(v, ast.Constant):
+                parts.append(str(v.value))
+            elif isinstance(v, ast.FormattedValue) and v.format_spec is None and v.conversion == -1:
+                try:
+                    r = self.ev(v.value, st)
+                except (Unsupported, PathEnd):
+                    r = []
+                if len(r) == 1 and isinstance(r[0][1], VStr) and r[0][1].s is not None:
+                    parts.append(r[0][1].s)
+                else:
+                    return [(st, VStr(t=fresh(STR, "fstr").t))]
+            else:
+                return [(st, VStr(t=fresh(STR, "fstr").t))]
+        return [(st, VStr("".join(parts)))]
 
     def ev_Name(self, node, st):
         v = self.lookup(node.id, st, node)
@@ -220,6 +238,15 @@ class ExprMixin:
             return [(st, self.module_attr(base, attr, node))]
         if isinstance(base, VSeq):
             return [(st, VFunc(f"seq.{attr}", self.seq_method(base, attr)))]
+        if isinstance(base, VStr) and base.s is not None and attr in ("startswith", "endswith"):
+            def strfn(args, kwargs, s_, eng, base=base, attr=attr):
+                a = args[0]
+                if not isinstance(a, VStr) or a.s is None:
+                    raise Unsupported("str method with symbolic argument")
+                return VBool(getattr(base.s, attr)(a.s))
+            return [(st, VFunc(f"str.{attr}", strfn))]
+        if isinstance(base, VStr) and attr in ("startswith", "endswith", "format", "split", "join", "lower", "upper"):
+            raise Unsupported(f"str.{attr} on a symbolic string", node)
         if isinstance(base, VClass) and attr == "__name__":
             return [(st, VStr(base.name))]
         raise Unsupported(f"attribute .{attr} on {base!r}", node)
@@ -270,7 +297,10 @@ class ExprMixin:
         if isinstance(op, ast.Div):
             x, y = to_real(a), to_real(b)
             self.safety(st, "div:nonzero", y != 0, node, "division by zero")
-            return [(st, VReal(x / y))]
+            r = VReal(x / y)
+            if not real and not isinstance(a, VReal) and not isinstance(b, VReal):
+                r.ratio = (to_int(a), to_int(b))      # int / int: lets int(a / b) be computed exactly
+            return [(st, r)]
         if real:
             x, y = to_real(a), to_real(b)
             if isinstance(op, ast.Add): return [(st, VReal(x + y))]
@@ -381,7 +411,8 @@ class ExprMixin:
         return out
 
     def compare(self, op, a, b, st, node):
-        a, b = self.deref(a, st), self.deref(b, st)
+        a = a if isinstance(a, VRef) and isinstance(st.heap.get(a.oid), HObj) else self.deref(a, st)
+        b = b if isinstance(b, VRef) and isinstance(st.heap.get(b.oid), HObj) else self.deref(b, st)
         if isinstance(op, (ast.Is, ast.IsNot)):
             if isinstance(b, VNone):
                 r = a.isnone if isinstance(a, VOpt) else z3.BoolVal(isinstance(a, VNone))
@@ -511,6 +542,16 @@ class ExprMixin:
 
     def slice(self, base, lo, hi, step, st, node):
         b = self.deref(base, st)
+        if isinstance(b, VStr) and b.s is not None:
+            def c(v):
+                v = self.deref(v, st)
+                if isinstance(v, VNone):
+                    return None
+                t = z3.simplify(to_int(v))
+                if not z3.is_int_value(t):
+                    raise Unsupported("symbolic slice of a string", node)
+                return t.as_long()
+            return VStr(b.s[c(lo):c(hi):c(step)])
         if isinstance(b, VTuple):
             b = VSeq.of(b.elems)
         if not isinstance(b, VSeq):
@@ -552,6 +593,8 @@ class ExprMixin:
         return self.fresh_list(res, st)
 
     def seq_concat(self, a, b):
+        if a.concrete is not None and not a.concrete:
+            return VSeq(b.len, b.elem, b.etype, b.concrete)
         if a.concrete is not None and b.concrete is not None:
             return VSeq.of(a.concrete + b.concrete, a.etype if a.concrete else b.etype)
         return VSeq(a.len + b.len, lambda i: ite(i < a.len, a.elem(i), b.elem(i - a.len)), a.etype)
@@ -599,7 +642,9 @@ class ExprMixin:
             except TypeError:
                 etype = VAL
 
-            def elem(k, s=s, sq=sq):
+            snap = s.fork()
+
+            def elem(k, s=snap, sq=sq):
                 s2 = s.fork()
                 self.assign_target(g.target, sq.elem(k), s2)
                 return self.ev_join(node.elt, s2)
@@ -671,7 +716,33 @@ class ExprMixin:
                 self.safety(s, "zip-star:nonempty", sq.len > 0, node, "zip(*[]) unpacks to nothing")
                 out.append((s, VTuple(cols)))
             return out
-        raise Unsupported("call with *args/**kwargs", node)
+        out = []
+        for s, fv in self.ev(node.func, st):
+            pos_nodes = [a.value if isinstance(a, ast.Starred) else a for a in node.args]
+            kw_nodes = [k.value for k in node.keywords]
+            for s2, vals in self.ev_seq(pos_nodes + kw_nodes, s):
+                args, kwargs = [], {}
+                for a, v in zip(node.args, vals[:len(node.args)]):
+                    if isinstance(a, ast.Starred):
+                        vv = self.deref(v, s2)
+                        if isinstance(vv, VTuple):
+                            args.extend(vv.elems)
+                        elif isinstance(vv, VSeq) and vv.concrete is not None:
+                            args.extend(vv.concrete)
+                        else:
+                            raise Unsupported("*args of symbolic length", node)
+                    else:
+                        args.append(v)
+                for k, v in zip(node.keywords, vals[len(node.args):]):
+                    if k.arg is None:
+                        if isinstance(v, VRec):
+                            kwargs.update(v.fields)
+                        else:
+                            raise Unsupported("**kwargs of unknown shape", node)
+                    else:
+                        kwargs[k.arg] = v
+                out.extend(self.call(fv, args, kwargs, s2, node))
+        return out
 
     def ev1_in(self, node, st):
         return self.ev1(node, st)
